@@ -551,6 +551,7 @@ func ruleC03(prog *Program, rep *Report) {
 	ruleSENFollow(prog, rep)
 	ruleReaderLoops(prog, rep)
 	ruleEntryParity(prog, rep, "oj.Parser", "oj.Validator", "oj.Tokenizer", "gen.Parser", "sen.Parser", "sen.Tokenizer") // the []byte and the reader entry must start from the same state
+	ruleArgParity(prog, rep, "oj.Parser", "oj.Validator", "oj.Tokenizer", "gen.Parser", "sen.Parser", "sen.Tokenizer")
 	if rep.Tier == "thorough" {
 		mutationSweep(prog, rep, union(kindsAccept, kindsEvents, kindsPanic), sweepSize())
 	}
